@@ -195,6 +195,11 @@ func c17Journal(drv *core.Driver, qs []string, digits int, k bool) (string, stri
 	t := drv.Run(nil, append(targs, "j.knut")...)
 	c := drv.Run(nil, "balance", "--csv", "-a", "j.knut")
 	ctx := fmt.Sprintf("\namounts %v digits %d thousands %v\ntext:\n%s\ncsv:\n%s", qs, digits, k, t.Stdout, c.Stdout)
+	// the CSV rendering carries the exact amounts whatever the display flags are
+	cargs := append(append([]string{"balance", "--csv"}, targs[2:]...), "j.knut")
+	if c2 := drv.Run(nil, cargs...); c2.Exit != c.Exit || c2.Stdout != c.Stdout {
+		return "C17:csv-depends-on-display-flags", fmt.Sprintf("`knut %s` differs from the plain --csv output:\n%s", strings.Join(cargs, " "), c2.Stdout) + ctx
+	}
 	if t.Exit != 0 || c.Exit != 0 || t.Abnormal() != "" || c.Abnormal() != "" {
 		return "C17:command-failed", t.Stderr + c.Stderr + t.Abnormal() + c.Abnormal() + ctx
 	}
@@ -324,7 +329,7 @@ func c17Run(e *core.Env) {
 		// large tables (700 rows): the renderer may take another code path for them. The
 		// real binary is run free with all CPUs and every line must have the same width;
 		// the race detector decides whether rows are measured/printed without synchronisation.
-		sc := raceOnlyScenarios()[0]
+		sc := raceOnlyScenario("big-table-balance")
 		drv.Files(sc.Files)
 		for i := 0; i < core.Pick(e, 8, 40); i++ {
 			o := drv.RunBinary(sc.Args...)
